@@ -136,6 +136,7 @@ type Sim struct {
 	remoteChecks                 int
 	resurrections                int
 	closeQueued                  int
+	gcCycles                     int
 	wseqChecks                   int
 	forceSet                     []*simTable // table set of the next RunTxn (nested transactions)
 	forcedMore                   []forcedOp  // further operations of the forced transaction
@@ -981,6 +982,7 @@ func (s *Sim) Finish(nontrivial bool) {
 	s.R.Count("prefix_key_collapse_macros", int64(s.collapses))
 	s.R.Count("dead_objects_resurrected_under_the_collector", int64(s.resurrections))
 	s.R.Count("registrations_while_a_close_is_queued", int64(s.closeQueued))
+	s.R.Count("runtime_gc_cycles_between_registrations", int64(s.gcCycles))
 	if s.R.WantSample() {
 		tail := s.Log
 		if len(tail) > 45 {
